@@ -645,7 +645,9 @@ def normalise_function_renames(repo: Repo) -> list[str]:
     vanished = [fq for fq in REFERENCE_SIGS if fq not in cur]
     if not vanished:
         return log
-    new = [f for fq, f in cur.items() if fq not in REFERENCE]
+    new = [f for fq, f in cur.items() if fq not in REFERENCE and not any(
+        d.rsplit(".", 1)[-1] in ("property", "cached_property", "setter")
+        for d in f.decorators)]
     ref_names = {fq.split(":")[1].rsplit(".", 1)[-1] for fq in REFERENCE_SIGS}
 
     def scope_of(q: str) -> str:
